@@ -41,7 +41,7 @@ Lemma respond_spec t s r rt s' eff : respond t s r = (rt, s', eff) ->
   (In EModule eff -> s_proto s = PTO2 /\ t = 68 /\ rt = 69 /\ s_ready s = true /\ r_ok r = true) /\
   (In EReplace eff -> s_proto s = PTO2 /\ t = 70 /\ rt = 71 /\ s_hmac s = true /\ r_ok r = true) /\
   (rt = 33 -> s_proto s = PTO1 /\ t = 32 /\ s_started s = true /\ r_ok r = true) /\
-  (rt = 65 -> s_proto s = PTO2 /\ t = 64 /\ s_started s = true /\ s_proved s = false /\ r_ok r = true) /\
+  (rt = 65 -> s_proto s = PTO2 /\ t = 64 /\ s_started s = true /\ r_ok r = true) /\
   (rt = 255 -> eff = [] /\ s' = s) /\
   (rt = 67 \/ rt = 69 \/ rt = 71 -> s_proto s = PTO2 /\ (t = 66 \/ t = 68 \/ t = 70)).
 Proof.
@@ -328,7 +328,7 @@ Proof.
     destruct (respond_spec _ _ _ _ _ _ R) as [_ [_ [_ [_ [_ [S65 _]]]]]]. destruct (S65 eq_refl) as [_ [T _]].
     rewrite T in IS. discriminate.
   - destruct (respond_spec _ _ _ _ _ _ R) as [_ [_ [_ [_ [_ [S65 _]]]]]].
-    destruct (S65 eq_refl) as [PR [T [ST [_ OK]]]].
+    destruct (S65 eq_refl) as [PR [T [ST OK]]].
     apply lookup_some in L as [TK [N [AL LT]]].
     repeat split; auto. exists id. split; [exact TK|].
     destruct (reach_inv _ _ RCH id s N) as [_ [_ [_ I4]]]. rewrite <- PR. now apply I4.
